@@ -352,6 +352,10 @@ func (s *hSim) monitor(q hReq, o hObs) {
 		if !s.cookieIDs[st.ID] {
 			s.violate("C05", "tokens stored under a session id the service never issued in a Set-Cookie", map[string]any{"request": q, "sid": st.ID})
 		}
+		if (t.AccessToken != "" && !s.idpTokens[t.AccessToken]) || (t.RefreshToken != "" && !s.idpTokens[t.RefreshToken]) {
+			s.violate("C02", "an access or refresh token that was never received in a valid answer of the token endpoint was bound to a session (and would be forwarded / used for it)",
+				map[string]any{"request": q, "bound": t})
+		}
 		switch {
 		case !s.idpTokens[t.IDToken]:
 			s.violate("C02", "an ID token that was never received from the token endpoint was bound to a session", map[string]any{"request": q})
